@@ -232,6 +232,35 @@ def special_type_programs():
     return [Program("special_types", "recursion, field-count, enum and union families of the shared type space", space.ir(space.FIXED_TYPES + extra), cls="special-types")]
 
 
+def size_programs(thorough):
+    """wide and deep definitions: no rule of the IR bounds the number of members, values, endpoints
+    or arguments, the nesting depth or the length of an alias chain"""
+    P = space.prim
+    progs = []
+    for n in ([4, 33, 130] if not thorough else [4, 13, 16, 17, 32, 33, 64, 65, 130, 300]):
+        types = [
+            space.obj("WideReq", [space.field("f%d" % i, P("STRING")) for i in range(n)], PKG),
+            space.obj("WideOpt", [space.field("h%d" % i, space.opt(P("DOUBLE"))) for i in range(n)], PKG),
+            space.obj("WideMix", [space.field("m%d" % i, [P("INTEGER"), space.lst(P("STRING")), space.opt(P("UUID")), space.mp(P("STRING"), P("DOUBLE"))][i % 4]) for i in range(n)], PKG),
+            space.union("WideUnion", [space.field("v%d" % i, [P("STRING"), P("DOUBLE"), R("WideReq")][i % 3]) for i in range(n)], PKG),
+            space.enum("WideEnum", ["V%d" % i for i in range(n)], PKG),
+        # (alias chains stay below rustc's default recursion_limit of 128: a chain of 130 newtypes
+        # fails in the *compiler* with "reached the recursion limit", which the embedding crate
+        # lifts with #![recursion_limit]; not the generator's doing)
+        ] + [space.alias("Chain%d" % i, R("Chain%d" % (i + 1)), PKG) for i in range(min(n, 64))] + [space.alias("Chain%d" % min(n, 64), P("DOUBLE"), PKG), space.obj("UsesChain", [space.field("c", space.st(R("Chain0"))), space.field("m", space.mp(R("Chain0"), R("Chain1")))], PKG)]
+        deep = P("INTEGER")
+        for d in range(min(n, 24)):
+            deep = [space.opt, space.lst, space.st, lambda t: space.mp(P("STRING"), t)][d % 4](deep)
+        types.append(space.alias("Deep", deep, PKG))
+        err = space.error("WideErr", "Verif", "CONFLICT", [space.field("s%d" % i, P("STRING")) for i in range(n)], [space.field("u%d" % i, space.opt(P("INTEGER"))) for i in range(n)], PKG)
+        eps = [space.endpoint("e%d" % i, "GET", "/e%d" % i, [], returns=R("WideEnum")) for i in range(n)]
+        eps.append(space.endpoint("manyArgs", "POST", "/args/" + "/".join("{p%d}" % i for i in range(min(n, 12))),
+                                  [space.arg("p%d" % i, P("STRING"), "path") for i in range(min(n, 12))] + [space.arg("q%d" % i, space.opt(P("INTEGER")), "query", "q%d" % i) for i in range(n)]
+                                  + [space.arg("h%d" % i, P("STRING"), "header", "X-H%d" % i) for i in range(n)] + [space.arg("body", R("WideMix"), "body")], returns=R("WideUnion")))
+        progs.append(Program("sizes_%d" % n, "objects / unions / enums / errors / services / argument lists of %d members, alias chain of %d, nesting depth %d" % (n, min(n, 64), min(n, 24)), space.ir(types, [space.service("WideSvc", eps, PKG)], [err]), cls="sizes"))
+    return progs
+
+
 def external_programs():
     """external (imported) types with every primitive fallback in every position, keys included"""
     progs = []
@@ -287,7 +316,7 @@ def run(a, rep):
     t0 = time.time()
     progs = []
     sp, shs = shape_programs(thorough)
-    progs += sp + param_programs() + name_programs(thorough) + [recursion_program()] + package_programs() + service_programs() + external_programs() + special_type_programs() + config_programs()
+    progs += sp + param_programs() + name_programs(thorough) + [recursion_program()] + package_programs() + service_programs() + external_programs() + special_type_programs() + config_programs() + size_programs(thorough)
     ids = [p.pid for p in progs]
     dup = sorted({i for i in ids if ids.count(i) > 1})
     if dup:
